@@ -999,11 +999,11 @@ Definition guard_ok (rfs wfs : list field) : bool :=
   (len tbl >? len ks) || forallb (fun e => mem (fst e) ks) tbl.
 
 (** the JSON defaults of the reader's fields are well-formed defaults of their types *)
-Definition defaults_ok (re : env) (rfs : list field) : bool :=
+Definition defaults_ok_tbl (re : env) (tbl : list (str * field)) : bool :=
   forallb (fun e => match fdefault (snd e) with
                     | Some d => match default_value DFUEL re (ftype (snd e)) d with ROk _ => true | _ => false end
-                    | None => true end)
-          (field_table rfs).
+                    | None => true end) tbl.
+Definition defaults_ok (re : env) (rfs : list field) : bool := defaults_ok_tbl re (field_table rfs).
 
 Definition accept_ok (we re : env) (w r : schema) : bool :=
   match match_top we re w r with
@@ -1053,7 +1053,7 @@ Fixpoint agree (we re : env) (w r : schema) {struct w} : bool :=
   end.
 
 (** text protocol *)
-Open Scope string_scope.
+Local Open Scope string_scope.
 Definition show_rres (x : rres (pyval * bytes)) : string :=
   match x with
   | ROk (v, r) => "R:" ++ show_py v ++ "|" ++ show_Z (len r)
